@@ -364,6 +364,14 @@ func (x *XRefParser) parseXRefStream() (*XRefTable, error) {
 		}
 		w[i] = int(intVal)
 	}
+	// Field widths come from the file: a negative width would slice out of range, and
+	// zero-width entries would let /Index request unbounded work without consuming data.
+	if w[0] < 0 || w[1] < 0 || w[2] < 0 || w[0]+w[1]+w[2] == 0 {
+		return nil, fmt.Errorf("invalid /W field widths: %v", w)
+	}
+	if len(index)%2 != 0 {
+		return nil, fmt.Errorf("invalid /Index array length: %d (expected pairs)", len(index))
+	}
 
 	// Parse entries from binary data
 	table := NewXRefTable()
